@@ -36,7 +36,7 @@ func c05Gen(ctx *vh.Ctx, i int) *gcase5.Case {
 		o.Mode = "pregel"
 	}
 	c := &gcase5.Case{G: gcase5.Gen(r, o), Input: fmt.Sprintf("x%d", r.Intn(5)), MaxCalls: 40}
-	if ctx.Thorough() && r.Chance(35) {
+	if (ctx.Thorough() && r.Chance(35)) || (!ctx.Thorough() && r.Chance(20)) {
 		// resume through the other paradigm / mix paradigms between calls
 		switch r.Intn(3) {
 		case 0:
